@@ -721,6 +721,20 @@ class _XX:
                              "x file " + hx(blank), "x reset", "x read", "x read",
                              "x render %s %d %s %s" % (style, d1, f1, h1), "x reset", "x read", "x end"]
                     out.append(("xx:empty:%s:%d:%d" % (style, j, k), lines))
+        # ONE parser context for two texts: the first ends with a pending name or data-only element, the second starts
+        # with an empty-named element; the second tree is judged ('x expect')
+        REUSE = [(None, ["alpha", "s {\nbeta", "k = 1\nlonger_name"], [("{\na=1\n}\n", "-(61=31)"), ("= v\nb=2\n", "-=76,62=32"),
+                                                                  ("{\n{\nc=3\n}\n}\nd=4\n", "-(-(63=33)),64=34")]),
+                 ("[ ] = #", ["x\ny", "alpha", "[s]\nk=1\nname"], [("[]\nk=1\n", "-(6b=31)"), ("[]\n[t]\nu=2\n", "-,74(75=32)")])]
+        for desc, firsts, seconds in REUSE:
+            for a, first in enumerate(firsts):
+                for b, (second, forest) in enumerate(seconds):
+                    lines = ["x new 255 255", "x fmt " + ("null" if desc is None else hx(desc)),
+                             "x file " + hx(first), "x open", "x read",
+                             "x file " + hx(second), "x expect " + forest, "x reset", "x read",
+                             "x file " + hx(first), "x reset", "x read", "x read",
+                             "x file " + hx(second), "x expect " + forest, "x open", "x read", "x end"]
+                    out.append(("xx:reuse:%s:%d:%d" % (hx(desc or "d"), a, b), lines))
         return out
 
     @staticmethod
